@@ -185,6 +185,18 @@ class MapCell:
         return MapCell(self.ksort, self.vkind, self.dom, self.val, self.refcls, self.fields, self.n, self.fields0, self.rname)
 
 
+class RegionListCell:
+    """The list of all objects of a region, in key order."""
+
+    __slots__ = ("region",)
+
+    def __init__(self, region):
+        self.region = region      # Ref of the region's MapCell
+
+    def copy(self):
+        return RegionListCell(self.region)
+
+
 class MapElem:
     """The object stored under a (symbolic) key of a reference-valued MapCell; attribute reads/writes go to the
     map's field arrays at that key, so two keys that are equal denote the same object."""
